@@ -98,6 +98,9 @@ func (t *Term) mkKey() string {
 	sb.WriteString(t.Op)
 	if t.Name != "" {
 		sb.WriteString(":" + t.Name)
+		if t.Name == "toring" {
+			sb.WriteString(t.Sort.String()[:2]) // the same integer maps to different residues in Z/P and Z/N
+		}
 	}
 	if t.Val != nil {
 		sb.WriteString("#" + t.Val.String())
@@ -674,13 +677,13 @@ func (t *Term) walk(f func(*Term)) {
 
 // substitute replaces atoms (by key) throughout a term, re-normalising.
 func substitute(t *Term, sub map[string]*Term) *Term {
-	return substituteMemo(t, sub, map[string]*Term{})
+	return substituteMemo(t, sub, map[string]*Term{}, nil)
 }
 
 // substituteMemo: `seen`, when non-nil, collects the keys of all visited subterms (used to decide whether a
 // new rewrite rule can invalidate memoised results).
-func substituteMemo(t *Term, sub map[string]*Term, memo map[string]*Term) *Term {
-	if len(sub) == 0 {
+func substituteMemo(t *Term, sub map[string]*Term, memo map[string]*Term, nz map[string]bool) *Term {
+	if len(sub) == 0 && len(nz) == 0 {
 		return t
 	}
 	var rec func(*Term) *Term
@@ -700,7 +703,7 @@ func substituteMemo(t *Term, sub map[string]*Term, memo map[string]*Term) *Term 
 			case "var":
 				r = t
 			case "poly":
-				r = fromPolySubst(t.P, rec)
+				r = fromPolySubst(t.P, rec, nz)
 			case "lin":
 				r = fromLinSubst(t.L, rec)
 			default:
@@ -776,4 +779,57 @@ func sortedKeys[V any](m map[string]V) []string {
 	}
 	sort.Strings(ks)
 	return ks
+}
+
+// pretty prints a term without digests, to a bounded depth (debugging aid).
+func pretty(t *Term, depth int) string {
+	if depth <= 0 {
+		return "…"
+	}
+	switch t.Op {
+	case "const", "var":
+		k := t.Key()
+		if len(k) > 24 && t.Op == "const" {
+			return k[:10] + "…" + k[len(k)-6:]
+		}
+		return k
+	case "poly":
+		var sb strings.Builder
+		sb.WriteString("[" + t.P.sort.String()[:2])
+		for _, k := range t.P.sortedKeys() {
+			e := t.P.t[k]
+			c := e.c.String()
+			if len(c) > 24 {
+				c = c[:8] + "…" + c[len(c)-6:]
+			}
+			sb.WriteString(" + " + c)
+			for _, f := range e.m.f {
+				sb.WriteString("·" + pretty(f.atom, depth-1))
+				if f.exp.Cmp(big1) != 0 {
+					x := f.exp.String()
+					if len(x) > 12 {
+						x = x[:4] + "…" + x[len(x)-4:]
+					}
+					sb.WriteString("^" + x)
+				}
+			}
+		}
+		sb.WriteString("]")
+		return sb.String()
+	case "lin":
+		return "{lin " + t.L.pretty(depth-1) + "}"
+	}
+	var sb strings.Builder
+	sb.WriteString("(" + t.Op)
+	if t.Name != "" {
+		sb.WriteString(":" + t.Name)
+	}
+	if t.Val != nil {
+		sb.WriteString("#" + t.Val.String())
+	}
+	for _, a := range t.Args {
+		sb.WriteString(" " + pretty(a, depth-1))
+	}
+	sb.WriteString(")")
+	return sb.String()
 }
